@@ -31,10 +31,10 @@ pub fn boundary_cases() -> Vec<Vec<Entry>> {
             for fmt in [None, Some(2u32)] {
                 let mut es = Vec::new();
                 if let Some(dp) = fmt {
-                    es.push(Entry::Format(4, dp));
-                    es.push(Entry::Format(2, dp));
+                    es.push(Entry::Format(4, dp, FmtLit::default()));
+                    es.push(Entry::Format(2, dp, FmtLit::default()));
                 }
-                es.push(Entry::Txn(Txn { effective: None, date: 10, posts: vec![post(0, Some(lit(m1, s1, 4))), post(1, Some(lit(m2, s2, 2)))] }));
+                es.push(Entry::Txn(Txn { effective: None, date: 10, posts: vec![post(0, Some(lit(m1, s1, 4))), post(1, Some(lit(m2, s2, 2)))], head: Head::default() }));
                 out.push(es);
             }
         }
@@ -44,9 +44,9 @@ pub fn boundary_cases() -> Vec<Vec<Entry>> {
         for fmt in [None, Some(2u32), Some(0)] {
             let mut es = Vec::new();
             if let Some(dp) = fmt {
-                es.push(Entry::Format(4, dp));
+                es.push(Entry::Format(4, dp, FmtLit::default()));
             }
-            es.push(Entry::Txn(Txn { effective: None, date: 10, posts: vec![post(0, Some(lit(1000, 2, 4))), post(1, Some(lit(-1000 + m1 * if s1 == 0 { 100 } else { 1 }, if s1 == 0 { 2 } else { 3 }, 4)))] }));
+            es.push(Entry::Txn(Txn { effective: None, date: 10, posts: vec![post(0, Some(lit(1000, 2, 4))), post(1, Some(lit(-1000 + m1 * if s1 == 0 { 100 } else { 1 }, if s1 == 0 { 2 } else { 3 }, 4)))], head: Head::default() }));
             out.push(es);
         }
     }
@@ -54,7 +54,7 @@ pub fn boundary_cases() -> Vec<Vec<Entry>> {
     for a in [0i64, 5, -5] {
         for b in [0i64, 5, -5] {
             for c in [0i64, 7, -7] {
-                out.push(vec![Entry::Txn(Txn { effective: None, date: 10, posts: vec![post(0, Some(lit(a, 0, 4))), post(1, Some(lit(b, 0, 2))), post(2, Some(lit(c, 0, 1)))] })]);
+                out.push(vec![Entry::Txn(Txn { effective: None, date: 10, posts: vec![post(0, Some(lit(a, 0, 4))), post(1, Some(lit(b, 0, 2))), post(2, Some(lit(c, 0, 1)))], head: Head::default() })]);
             }
         }
     }
@@ -65,10 +65,10 @@ pub fn boundary_cases() -> Vec<Vec<Entry>> {
                 let x = if total { Exch::Total(lit(cm, 0, 2)) } else { Exch::Rate(lit(cm, 0, 2)) };
                 let mut p = post(0, Some(lit(m, 0, 4)));
                 p.cost = Some(x.clone());
-                out.push(vec![Entry::Txn(Txn { effective: None, date: 10, posts: vec![p.clone(), post(1, None)] })]);
+                out.push(vec![Entry::Txn(Txn { effective: None, date: 10, posts: vec![p.clone(), post(1, None)], head: Head::default() })]);
                 let mut q = post(0, Some(lit(m, 0, 4)));
                 q.lot = Some(x);
-                out.push(vec![Entry::Txn(Txn { effective: None, date: 10, posts: vec![q, post(1, Some(lit(-m * cm, 0, 2)))] })]);
+                out.push(vec![Entry::Txn(Txn { effective: None, date: 10, posts: vec![q, post(1, Some(lit(-m * cm, 0, 2)))], head: Head::default() })]);
             }
         }
     }
@@ -80,7 +80,7 @@ pub fn boundary_cases() -> Vec<Vec<Entry>> {
         (1, 12, 4_000_000_000_000, 0),
     ] {
         for (sg1, sg2) in [(1i64, 1i64), (1, -1), (-1, 1), (-1, -1)] {
-            out.push(vec![Entry::Txn(Txn { effective: None, date: 10, posts: vec![post(0, Some(lit(sg1 * m1, s1, 4))), post(1, Some(lit(sg2 * m2, s2, 2)))] })]);
+            out.push(vec![Entry::Txn(Txn { effective: None, date: 10, posts: vec![post(0, Some(lit(sg1 * m1, s1, 4))), post(1, Some(lit(sg2 * m2, s2, 2)))], head: Head::default() })]);
         }
     }
     // multi-commodity cost expression
@@ -92,7 +92,11 @@ pub fn boundary_cases() -> Vec<Vec<Entry>> {
         )));
         let mut p = post(0, Some(lit(1, 0, 0)));
         p.cost = Some(Exch::Rate(cost));
-        out.push(vec![Entry::Txn(Txn { effective: None, date: 10, posts: vec![p, post(1, None)] })]);
+        out.push(vec![Entry::Txn(Txn { effective: None, date: 10, posts: vec![p, post(1, None)], head: Head::default() })]);
+    }
+    // every member of the set in its own header shape and sample-number shape
+    for (n, es) in out.iter_mut().enumerate() {
+        vary_shapes_nth(es, n);
     }
     out
 }
@@ -100,9 +104,10 @@ pub fn boundary_cases() -> Vec<Vec<Entry>> {
 pub fn run(o: &Opts) {
     let mut st = Stats::new();
     let mut sh = Shards::new(&o.out, o.shards, &header("Classify_C01"));
-    st.rule = "ledger text generated from a tree (1-5 transactions of 1-6 postings; explicit/omitted/assigned amounts; 1-3 of 5 commodities; zero and negative values; @/@@ costs; {}/{{}} lots, one in eight written with a minus sign; parenthesised expressions; format declarations; sums on half-unit rounding boundaries) plus an enumerated boundary set (residual shape x sign x rounding); run through report::process on a FakeFileSystem; non-trivial = the deciding transaction reached check_balance or amount deduction; distinct by ledger text".into();
+    st.rule = "ledger text generated from a tree (1-5 transactions of 1-6 postings; explicit/omitted/assigned amounts; 1-3 of 5 commodities; zero and negative values; @/@@ costs; {}/{{}} lots, one in eight written with a minus sign; parenthesised expressions, about one term in eight divided by a number without a finite reciprocal (3, 6, 7, 9, 11, 12, 13, 0.3, 0.07, 15, 21, 1.4) with the dividend - a literal, `term * d`, or a sum - an exact multiple of it (counted as cases_with:exact_division_by_number_without_finite_reciprocal); format declarations; sums on half-unit rounding boundaries) plus an enumerated boundary set (residual shape x sign x rounding); run through report::process on a FakeFileSystem; non-trivial = the deciding transaction reached check_balance or amount deduction; distinct by ledger text".into();
+    st.rule = format!("{}; {}", st.rule, TEXT_SHAPES_RULE);
     st.assumptions.push("no total price (@@, {{}}) on an amount that is a zero produced by an expression (rust_decimal keeps a sign bit on zero that the exact-rational model does not represent)".into());
-    st.assumptions.push("literal mantissas below 10^7 with scale <= 3, products of at most three factors: every intermediate Decimal is exact".into());
+    st.assumptions.push("literal mantissas below 10^7 with scale <= 3, products of at most three factors, quotients exact by construction: every intermediate Decimal is exact".into());
     let (corpus, replay) = corpus_entries(&o.corpus, &o.extra);
     for es in corpus {
         emit_ledger_case(&mut sh, &mut st, "C01", &es, &nontrivial, "corpus");
